@@ -24,19 +24,18 @@ Arguments cumsum_int : simpl never.
 Arguments cumsum_flt : simpl never.
 Arguments column : simpl never.
 Arguments set_col : simpl never.
-Arguments sum_cells : simpl never.
+Arguments sum_cells !dt l : simpl nomatch.
 Arguments sum_int : simpl never.
 Arguments sum_flt : simpl never.
 Arguments map2 : simpl never.
 Arguments cmp_flt : simpl never.
-Arguments binop_flt : simpl never.
 Arguments eval_unop : simpl never.
 Arguments fdiv : simpl never.
 Arguments to_int !v : simpl nomatch.
 Arguments to_flt !v : simpl nomatch.
 Arguments truthy !v : simpl nomatch.
 Arguments is_flt !v : simpl nomatch.
-Arguments coerce !dt !v : simpl nomatch.
+Arguments coerce !dt v : simpl nomatch.
 Arguments eval_binop op !a !b : simpl nomatch.
 Arguments eval_cmp op !a !b : simpl nomatch.
 Arguments Z.add : simpl never.
@@ -96,7 +95,7 @@ Ltac wp_compute k annf :=
      fparams flocals combine app map repeat length Nat.sub get set String.eqb Ascii.eqb Bool.eqb getsc
      getar getZ getD havoc forall_kind agree find_kind kind_ok same_shape normal brk ret args_safe
      arg_safe argvals argval wp_targets fname is_sc is_ar alen acols adt adata forall_rets slice_rows];
-  cbn [to_int truthy eval_cmp eval_binop is_flt orb binop_int cmp_int coerce negb].
+  cbn [to_int to_flt truthy eval_cmp eval_binop is_flt orb binop_int binop_flt cmp_int coerce negb sum_cells].
 
 (* turn a boolean test on integers into a proposition (ZifyBool is deliberately not used: its
    preprocessing of every boolean hypothesis dominated the proof time) *)
